@@ -243,6 +243,7 @@ type c20Case struct {
 	ctl     *c20Ctl
 	hist    []c20Write
 	current *c20Stream
+	pendingWatch bool
 }
 
 var errC20Inconclusive = fmt.Errorf("vf c20: inconclusive")
@@ -263,15 +264,14 @@ func (c *c20Case) write(phase string, e c20Entry, val string) error {
 	return nil
 }
 
-func (c *c20Case) waitArrive(want string) error {
+// waitArrive waits until the router parks at one of its etcd calls and says which one.
+// The harness does not assume the router's call sequence: whatever it parks at is handled.
+func (c *c20Case) waitArrive() (string, error) {
 	select {
 	case got := <-c.ctl.arrived:
-		if got != want {
-			return fmt.Errorf("%w: router parked at %q, harness expected %q", errC20Inconclusive, got, want)
-		}
-		return nil
+		return got, nil
 	case <-time.After(60 * time.Second):
-		return fmt.Errorf("%w: router never reached its %s call", errC20Inconclusive, want)
+		return "", fmt.Errorf("%w: router never reached its next etcd call", errC20Inconclusive)
 	}
 }
 
@@ -398,26 +398,46 @@ func (c *c20Case) run(p c20Plan) (string, error) {
 		l, a, s, err := c.f.start(ctx, c.cli)
 		stc <- started{l, a, s, err}
 	}()
-	if err := c.waitArrive("get"); err != nil {
-		return "", err
-	}
-	if err := c.letGo(); err != nil {
-		return "", err
-	}
+	// constructor: any number of reads (normally exactly one loadAll) until it returns
 	var r started
-	select {
-	case r = <-stc:
-	case <-time.After(60 * time.Second):
-		return "", fmt.Errorf("%w: router constructor did not return", errC20Inconclusive)
+	for done := false; !done; {
+		select {
+		case r = <-stc:
+			done = true
+		case got := <-c.ctl.arrived:
+			if got == "watch" {
+				// the watch goroutine got there before the constructor returned
+				c.pendingWatch = true
+				continue
+			}
+			if err := c.letGo(); err != nil {
+				return "", err
+			}
+		case <-time.After(60 * time.Second):
+			return "", fmt.Errorf("%w: router constructor did not return", errC20Inconclusive)
+		}
 	}
 	if r.err != nil {
 		return "", fmt.Errorf("%w: router start: %v", errC20Inconclusive, r.err)
 	}
 	defer r.stop()
+	// reconnect: let reads through (writes of the "outage" phase were already applied) until
+	// the router parks at Watch; apply the gap writes there; let the watch start; live writes.
 	reconnect := func(gap, live [][2]int, gapName, liveName string) error {
-		if err := c.waitArrive("watch"); err != nil {
-			return err
+		for !c.pendingWatch {
+			got, err := c.waitArrive()
+			if err != nil {
+				return err
+			}
+			if got == "watch" {
+				c.pendingWatch = true
+				break
+			}
+			if err := c.letGo(); err != nil {
+				return err
+			}
 		}
+		c.pendingWatch = false
 		if err := apply(gapName, gap); err != nil {
 			return err
 		}
@@ -437,13 +457,7 @@ func (c *c20Case) run(p c20Plan) (string, error) {
 		if err := apply("outage"+n, outage); err != nil {
 			return err
 		}
-		// the router sleeps 1 s (real time), then reloads
-		if err := c.waitArrive("get"); err != nil {
-			return err
-		}
-		if err := c.letGo(); err != nil {
-			return err
-		}
+		// the router sleeps 1 s (real time), then reloads and re-watches
 		return reconnect(gap, live, "gap"+n, "live"+n)
 	}
 	if p.Cut {
